@@ -26,6 +26,15 @@ Proof. exact no_move_between_survivors. Qed.
 
 (* the choice depends only on the set of eligible names (not on listing order
    or repetitions) ... *)
+(* The hypothesis [inj_on h l] is the H-sha boundary: [h] is the WHOLE 256-bit digest of
+   "<node>#<first address>", assumed to differ between the candidates.  An implementation that
+   orders the candidates by a PREFIX of the digest (seeded C12-11: the first 4 bytes as an integer)
+   satisfies the same statements on every set of names whose prefixes differ, i.e. on all random
+   names, and leaves ties to the iteration order of a Go map.  The boundary is made concrete by
+   corpus/C12/sha-prefix-collisions.json (tools/shacollide: pairs worker-<n> whose digests for
+   10.20.30.1 / fc00:f853:ccd:e799::1 share exactly their first 1..5 bytes), which TestVerifL2Multi
+   runs with the colliding pair ranking first and second, several election rounds per speaker plus
+   fresh speakers, against Elect.decide on the full digests (Run_Elect) and the exactly-one oracle. *)
 Theorem C12_order_independent : forall (h : N -> N) l l',
   inj_on h l -> (forall n, In n l <-> In n l') -> argmin h l = argmin h l'.
 Proof. exact winner_set_ext. Qed.
